@@ -350,7 +350,8 @@ macro_rules! kind_search {
                             ($bb:ident, $steps:expr) => {
                                 for step in $steps {
                                     $bb = match *step {
-                                        "P" => if spec.kind == "pfs-max" { $bb.max() } else { $bb.min() },
+                                        // variants 12..23: the opposite priority is set first (the last call wins)
+                                        "P" => if spec.kind == "pfs-max" { if spec.variant / 12 % 2 == 1 { $bb.min().max() } else { $bb.max() } } else if spec.variant / 12 % 2 == 1 { $bb.max().min() } else { $bb.min() },
                                         "T" => if spec.tr { $bb.transpose() } else { $bb },
                                         _ => match &tgt { Some(t) => $bb.target(t), None => $bb },
                                     };
@@ -408,7 +409,7 @@ macro_rules! kind_search {
                         macro_rules! cfg {
                             ($bb:ident, $steps:expr) => {
                                 for step in $steps {
-                                    $bb = match *step { "P" => if spec.kind == "pfs-max" { $bb.max() } else { $bb.min() }, _ => match &tgt { Some(t) => $bb.target(t), None => $bb } };
+                                    $bb = match *step { "P" => if spec.kind == "pfs-max" { if spec.variant / 12 % 2 == 1 { $bb.min().max() } else { $bb.max() } } else if spec.variant / 12 % 2 == 1 { $bb.max().min() } else { $bb.min() }, _ => match &tgt { Some(t) => $bb.target(t), None => $bb } };
                                 }
                             };
                         }
